@@ -409,6 +409,10 @@ def run_C17(ctx):
         elif ntr % 37 == 1:
             ctx.sample(dict(grammar=gname, variant=vn, input=payload, trace=evs[:6]))
     ctx.extra['traced_runs'] = ntr
+    # "a legal run of the grammar's LR automaton": the traces above are replayed on the table the parsers were generated from; that
+    # table must be the proved one (model built from the text of the same file)
+    if not props.had_counterexample(ctx):
+        props.report_corr(ctx, props.backend_diffs_of_i6(out), {'I1', 'I2', 'I3', 'I4', 'I5'}, 'C17')
 
 
 # ---------------------------------------------------------------- C18
@@ -544,6 +548,8 @@ def c18_grammars(ctx):
     mr = [dict(lhs=0, rhs=[('t', 0)], prec=None, c=0, coef=[1]), dict(lhs=0, rhs=[('n', 0), ('t', 4), ('n', 0)], prec=None, c=0, coef=[1, 1, 1]),
           dict(lhs=0, rhs=[('t', 1), ('n', 0), ('t', 2)], prec=None, c=0, coef=[1, 1, 1]), dict(lhs=0, rhs=[('t', 3)], prec=None, c=0, coef=[1])]
     gs.append(('h_meta', dict(terms=mt, nonterms=[dict(name='S', tag='v0')], precs=[('left', [4])], rules=mr, start=0)))
+    for i in range(2 if ctx.quick else 8):
+        gs.append(('h_long_first%d' % i, gram.long_first_grammar(rnd, pos=1 + i % 2)))
     n = 60 if ctx.quick else 600
     for i in range(n):
         if i % 3 == 0:
